@@ -28,7 +28,8 @@ fn boundary(ctx: &mut Ctx, b: &Board, case: &str, how: &str) {
             Some(_) => None,
             None => {
                 if t.len() < 1_500_000 {
-                    t.insert(key, (b.zobrist_hash(), case.to_string()));
+                    let w = if t.len() < 150_000 { case.to_string() } else { String::new() };
+                    t.insert(key, (b.zobrist_hash(), w));
                 }
                 None
             }
@@ -115,7 +116,7 @@ fn key_structure(ctx: &mut Ctx) {
     ctx.exhaustive_parts.push("all single-feature Zobrist key differences (13 contents x 64 squares pairwise, side, 32 one-right pairs, 9 mark states per relevant rank)".into());
 
     // linearity + counters ignored, on random raw boards (any contents, valid or not)
-    let rounds = ctx.budget(20_000, 1_000_000);
+    let rounds = ctx.budget(300_000, 4_000_000);
     for _ in 0..rounds {
         let mut r = empty;
         let mut want = h0;
@@ -304,7 +305,7 @@ pub fn run(ctx: &mut Ctx) {
     if ctx.shard == 0 || ctx.config == "miri" {
         key_structure(ctx);
     }
-    let n = ctx.budget(60_000, 3_000_000);
+    let n = ctx.budget(600_000, 8_000_000);
     let mut src = Sources::standard(n);
     src.walks = (n / 60).max(1);
     src.walk_plies = 120;
